@@ -122,8 +122,10 @@ def _marker_on_every_line(ws: ast.FunctionDef) -> bool:
             return _leftmost(defs[0].value) == "cls.SINGLE_LINE"
         return _leftmost(v) == "cls.SINGLE_LINE"
     if len(comps) == 1 and not loops:
-        return not any(g.ifs for g in comps[0].generators) and _leftmost(comps[0].elt if not isinstance(comps[0].elt, ast.IfExp) else comps[0].elt.body) == "cls.SINGLE_LINE" \
-            and (not isinstance(comps[0].elt, ast.IfExp) or _leftmost(comps[0].elt.orelse) == "cls.SINGLE_LINE")
+        from ..rules import resolve_deep as _rdl
+        elt = _rdl(ws, comps[0].elt)      # locals such as `marker = cls.SINGLE_LINE` are read through
+        return not any(g.ifs for g in comps[0].generators) and _leftmost(elt if not isinstance(elt, ast.IfExp) else elt.body) == "cls.SINGLE_LINE" \
+            and (not isinstance(elt, ast.IfExp) or _leftmost(elt.orelse) == "cls.SINGLE_LINE")
     raise AnalysisError("_create_comment_single: how the lines of the comment are produced could not be read (shape not enumerated)")
 
 
@@ -145,13 +147,24 @@ def rule_writer_finder(ck: Check, repo: Repo, folder: Folder) -> None:
         r.violation(f"{CS}.comment_at_first_character", "single-line scan does not accept lines starting with the marker", "", repo.loc(cf))
     wm = repo.func(f"{CS}._create_comment_multi")
     s3 = re.sub(r"\s+", " ", ast.unparse(wm))
-    ok3 = "result.append(cls.MULTI_LINE.start)" in s3 and "result.append(cls.INDENT_BEFORE_END + cls.MULTI_LINE.end)" in s3
+    ok3 = ("result.append(cls.MULTI_LINE.start)" in s3 or "result = [cls.MULTI_LINE.start]" in s3) \
+        and "result.append(cls.INDENT_BEFORE_END + cls.MULTI_LINE.end)" in s3
+    if not ok3:
+        # the same brackets as the first and the last element of one list display handed to join
+        for lst in [n for n in ast.walk(wm) if isinstance(n, (ast.List, ast.Tuple)) and len(n.elts) >= 3]:
+            if ast.unparse(lst.elts[0]) == "cls.MULTI_LINE.start" and ast.unparse(lst.elts[-1]) == "cls.INDENT_BEFORE_END + cls.MULTI_LINE.end":
+                ok3 = True
+        if not ok3 and "cls.MULTI_LINE.start" in s3 and "cls.MULTI_LINE.end" in s3 and ".append(" not in s3:
+            raise AnalysisError("_create_comment_multi: how the opening and the closing delimiter are put around the lines could not be"
+                                " read (shape not enumerated)")
     # the block ends at the first line that ends in the closing delimiter - left by `break` or by returning the block there
     ok4 = "text.startswith(cls.MULTI_LINE.start)" in s2 and re.search(
         r"if (line(\.rstrip\(\))?\.endswith\(cls\.MULTI_LINE\.end\)|cls\.MULTI_LINE\.end in line): (end = \w+ )?(break|return )", s2) is not None
     r.instance("multi-line", {"writer_brackets": ok3, "finder_brackets": ok4})
-    if not (ok3 and ok4):
+    if not ok3:
         r.violation(f"{CS}._create_comment_multi", "multi-line writer/finder brackets", f"writer={ok3} finder={ok4}", repo.loc(wm))
+    elif not ok4:
+        r.violation(f"{CS}.comment_at_first_character", "multi-line writer/finder brackets", f"writer={ok3} finder={ok4}", repo.loc(cf))
     # a style's own marker must be matched by its SINGLE_LINE_REGEXP (if any)
     for s in styles:
         rx = s.get("regexp")
